@@ -674,6 +674,23 @@ class WitnessGen:
                 args[p.name] = {'val': p.kw['value']}
             elif p.kind == 'pset':
                 args[p.name] = {'val': None}
+            elif p.kind in ('map', 'list'):
+                ref = self.ref()
+                n = r.randint(0, 3)
+                vals = []
+                for _ in range(n):
+                    if r.random() < 0.5:
+                        vals.append(r.choice([None, 1, 'x', True]))
+                    else:
+                        cr = self.ref()
+                        self.node([r.choice(LEAF_CLASSES + ['ConfigDict', 'ConfigList'])], 1, cr)
+                        vals.append({'ref': cr})
+                if p.kind == 'map':
+                    keys = r.sample(['a', 'b', 'c', 0, 1, 'items'], n)
+                    self.objects[str(ref)] = {'cls': 'dict', 'items': [[k, v] for k, v in zip(keys, vals)]}
+                else:
+                    self.objects[str(ref)] = {'cls': 'list', 'items': vals}
+                args[p.name] = {'val': {'ref': ref}}
             else:
                 args[p.name] = {'skip': True}
         gen = self.c.opts.get('witness_gen')
